@@ -26,7 +26,9 @@ RULE = (
     "the menu (incl. joins to a partner in the source engine) issued with preferred_engine in {s, e1} x the five "
     "backtrack/transfer/require_preferred_engine combinations; judged whenever the preferred engine differs from the "
     "tree's engine: (i) if the same call without a preferred engine succeeds the preferred call must not raise "
-    "ColumnError and may raise EngineError only with require_preferred_engine and no transfer; (ii) equal columns; (iii) "
+    "(no ColumnError, no row-order refusal caused by where backtracking tried to put it) except EngineError with "
+    "require_preferred_engine and no transfer, or with transfer=True into an engine that does not support the "
+    "operation's expression (the menu includes expressions only the current engine supports); (ii) equal columns; (iii) "
     "both trees are processed by the real Processor and executed, each compared with the reference and with each "
     "other, and the call is repeated on the already processed base tree (transfers holding payloads); (iv) engine "
     "placement by per-engine operation counts; non-trivial = backtracking changed the tree upstream "
@@ -69,6 +71,10 @@ MENU = (
     S((R("x"), True)),
     ("slice", 0, 2),
     ("slice", 2, None),
+    # expressions only the *current* (iteration) engine supports: with preferred_engine=s backtracking cannot
+    # place them, and the call must fall back to the root exactly as if no preferred engine had been given
+    ("sel", spaces.P_ONLY_IT),
+    ("calc", "z", spaces.C_ONLY_IT),
 )
 JOINS = (
     ("join", ("K",), None, False),
@@ -99,6 +105,26 @@ def world():
         LeafSpec("Kx", "s", ("x", "d"), ((-1, 7), (-2, 8), (-2, 9))),  # x: a key column the base trees *calculate*
     )
     return World(engines=w.engines, leaves=leaves)
+
+
+def restricted_away_from(inner, pref_kind):
+    """True if the operation carries an expression restricted to an engine kind other than the preferred one."""
+    from .. import alphabet as A
+
+    exprs = []
+    if inner[0] == "calc":
+        exprs.append(inner[2])
+    elif inner[0] == "sel":
+        exprs.append(inner[1])
+    elif inner[0] == "sort":
+        exprs.extend(e for e, _ in inner[1])
+    elif inner[0] == "join" and inner[2] is not None:
+        exprs.append(inner[2])
+    for e in exprs:
+        r = A.engine_restriction(e)
+        if r is not None and ("it" if r == "iteration" else "sql") != pref_kind:
+            return True
+    return False
 
 
 def op_counts(rel):
@@ -187,13 +213,32 @@ class C03(Check):
         # (i) exceptions
         if tr.rel is None:
             e = tr.exc
+            away = restricted_away_from(inner, tr.sub.world.kinds()[pref])
             if isinstance(e, EngineError) and req and not do_tr:
                 tr.count("engine_error_as_documented")
             elif isinstance(e, EngineError) and inner[0] == "join" and not do_tr:
                 tr.count("join_engine_error_no_transfer")
+            elif isinstance(e, EngineError) and away and do_tr:
+                # transfer=True asks for the operation to run in an engine that does not support its expression
+                tr.count("engine_error_unsupported_in_preferred_engine")
             elif type(e).__name__ == "RelationalAlgebraError":
-                # the documented row-order-loss refusal (C11): moving the operation into the SQL engine would
-                # bury a sort; C03 only forbids ColumnError (and EngineError outside require_preferred_engine)
+                # the documented row-order-loss refusal (C11) is legitimate only if it does not depend on where
+                # backtracking tried to put the operation: the same call with backtrack=False must refuse as well
+                # (a transfer back into the source engine is elided and re-exposes the sort)
+                if bt:
+                    try:
+                        ctx.apply(parent, pe(inner, pref, False, do_tr, req))
+                        refused_too = False
+                    except Exception as e2:  # noqa: BLE001
+                        refused_too = type(e2).__name__ == "RelationalAlgebraError" or (
+                            isinstance(e2, EngineError) and not do_tr
+                        )
+                    if not refused_too:
+                        tr.violation(
+                            "valid-call-rejected",
+                            f"row-order refusal caused by backtracking (the same call with backtrack=False succeeds): {str(e)[:200]}",
+                        )
+                        return False
                 tr.count("order_loss_refusal_as_documented")
             elif isinstance(e, ColumnError):
                 tr.violation("valid-call-rejected-ColumnError", f"valid at the root but preferred-engine call raised ColumnError: {str(e)[:200]}")
